@@ -977,3 +977,217 @@ func init() {
 			return out
 		}})
 }
+
+// depGraph: flow-insensitive value dependences inside a block — `x = E` makes x depend on the variables of E; a call
+// `r.M(a, b)` (other than read-only big-number methods) makes r and every pointer-like argument depend on all operands.
+func depGraph(info *types.Info, body ast.Node) map[types.Object]map[types.Object]bool {
+	deps := map[types.Object]map[types.Object]bool{}
+	add := func(dst types.Object, src ast.Node) {
+		if dst == nil {
+			return
+		}
+		if deps[dst] == nil {
+			deps[dst] = map[types.Object]bool{}
+		}
+		ast.Inspect(src, func(x ast.Node) bool {
+			if id, ok := x.(*ast.Ident); ok {
+				if v, ok := info.Uses[id].(*types.Var); ok && !v.IsField() {
+					deps[dst][v] = true
+				}
+			}
+			return true
+		})
+	}
+	ast.Inspect(body, func(x ast.Node) bool {
+		switch v := x.(type) {
+		case *ast.AssignStmt:
+			for i, l := range v.Lhs {
+				id := rootIdent(l)
+				if id == nil {
+					continue
+				}
+				o := info.Defs[id]
+				if o == nil {
+					o = info.Uses[id]
+				}
+				if len(v.Rhs) == len(v.Lhs) {
+					add(o, v.Rhs[i])
+				} else if len(v.Rhs) == 1 {
+					add(o, v.Rhs[0])
+				}
+			}
+		case *ast.CallExpr:
+			se, ok := unparen(v.Fun).(*ast.SelectorExpr)
+			if ok {
+				switch se.Sel.Name {
+				case "Cmp", "CmpAbs", "Sign", "BitLen", "Uint64", "Int64", "IsInt64", "IsUint64", "String", "Float64", "Text":
+					return true
+				}
+			}
+			var ptrs []types.Object
+			var all []ast.Node
+			if ok {
+				all = append(all, se.X)
+				if id := rootIdent(se.X); id != nil {
+					if o, ok := info.Uses[id].(*types.Var); ok && !o.IsField() {
+						ptrs = append(ptrs, o)
+					}
+				}
+			}
+			for _, a := range v.Args {
+				all = append(all, a)
+				if id, ok := unparen(a).(*ast.Ident); ok {
+					if o, ok := info.Uses[id].(*types.Var); ok && pointerLike(o.Type()) {
+						ptrs = append(ptrs, o)
+					}
+				}
+			}
+			for _, p := range ptrs {
+				for _, a := range all {
+					add(p, a)
+				}
+			}
+		}
+		return true
+	})
+	return deps
+}
+
+func depReaches(deps map[types.Object]map[types.Object]bool, from types.Object, targets map[types.Object]bool, seen map[types.Object]bool) bool {
+	if targets[from] {
+		return true
+	}
+	if seen[from] {
+		return false
+	}
+	seen[from] = true
+	for d := range deps[from] {
+		if depReaches(deps, d, targets, seen) {
+			return true
+		}
+	}
+	return false
+}
+
+// ITERACC — the error of iteration i of the iterated bootstrapping is scaled by the precision reached so far.
+//
+// META-BTS bootstraps the residual error e_i, which after i rounds lies 2^{p_1+…+p_i} below the message: the factor
+// `prec` that scales it up must be 2 to the *sum* of the per-iteration precisions. Scaling by 2^{p_i} alone leaves the
+// second and later iterations without effect (or destroys the message); with one iteration — all the tests run — both
+// are the same number. The accumulation was dropped by two seeding agents independently.
+//
+// Frozen table (function, list): in the loop of the function that indexes the list, a variable is accumulated with `+=`
+// from the list's element, and the big integer named `prec` computed in that loop depends on such an accumulator.
+var iterAccTable = []struct{ fn, list, consumer string }{
+	{"circuits/ckks/bootstrapping.(Evaluator).Evaluate", "BootstrappingPrecision", "prec"},
+}
+
+func scanIterAcc(c *core.Ctx) []ob {
+	var out []ob
+	n := 0
+	c.FuncDecls(func(pk *packages.Package, file *ast.File, fd *ast.FuncDecl) {
+		if fd.Body == nil {
+			return
+		}
+		fkey := core.FuncKey(pk, fd)
+		for _, te := range iterAccTable {
+			if te.fn != fkey && !(c.IsFixture && strings.HasSuffix(fkey, "refineAll")) {
+				continue
+			}
+			info := pk.TypesInfo
+			var loop *ast.ForStmt
+			ast.Inspect(fd.Body, func(x ast.Node) bool {
+				fs, ok := x.(*ast.ForStmt)
+				if !ok || loop != nil {
+					return true
+				}
+				if strings.Contains(exprString(fs.Cond), te.list) {
+					loop = fs
+				}
+				return true
+			})
+			n++
+			key := fmt.Sprintf("ITERACC:%s#%s", fkey, te.consumer)
+			if loop == nil {
+				out = append(out, infoOb("ITERACC", key, c.Rel(fd.Pos()), "no loop over "+te.list+": not decided"))
+				continue
+			}
+			deps := depGraph(info, loop.Body)
+			// elements of the list read in the loop
+			elems := map[types.Object]bool{}
+			ast.Inspect(loop.Body, func(x ast.Node) bool {
+				if as, ok := x.(*ast.AssignStmt); ok && len(as.Lhs) == len(as.Rhs) {
+					for i, r := range as.Rhs {
+						if strings.Contains(exprString(r), te.list+"[") {
+							if id := rootIdent(as.Lhs[i]); id != nil {
+								o := info.Defs[id]
+								if o == nil {
+									o = info.Uses[id]
+								}
+								if o != nil {
+									elems[o] = true
+								}
+							}
+						}
+					}
+				}
+				return true
+			})
+			accs := map[types.Object]bool{}
+			ast.Inspect(loop.Body, func(x ast.Node) bool {
+				if as, ok := x.(*ast.AssignStmt); ok && as.Tok == token.ADD_ASSIGN && len(as.Lhs) == 1 {
+					if id, ok := as.Lhs[0].(*ast.Ident); ok {
+						o := info.Uses[id]
+						dep := strings.Contains(exprString(as.Rhs[0]), te.list+"[")
+						for _, ro := range func() []types.Object {
+							var r []types.Object
+							ast.Inspect(as.Rhs[0], func(y ast.Node) bool {
+								if i2, ok := y.(*ast.Ident); ok {
+									if v, ok := info.Uses[i2].(*types.Var); ok {
+										r = append(r, v)
+									}
+								}
+								return true
+							})
+							return r
+						}() {
+							if elems[ro] {
+								dep = true
+							}
+						}
+						if o != nil && dep {
+							accs[o] = true
+						}
+					}
+				}
+				return true
+			})
+			var consumer types.Object
+			for o := range deps {
+				if o != nil && o.Name() == te.consumer {
+					consumer = o
+				}
+			}
+			switch {
+			case consumer == nil:
+				out = append(out, infoOb("ITERACC", key, c.Rel(loop.Pos()), "no value named "+te.consumer+" is computed in the loop: not decided"))
+			case len(accs) > 0 && depReaches(deps, consumer, accs, map[types.Object]bool{}):
+				out = append(out, okOb("ITERACC", key, c.Rel(loop.Pos()), "the scaling factor depends on the precision accumulated over the iterations", true))
+			default:
+				out = append(out, violOb("ITERACC", key, c.Rel(loop.Pos()), fmt.Sprintf("%s computes %s in the loop over %s from the current element only (no `+=` accumulator of the elements reaches it): the residual error of iteration i has to be scaled by the precision reached over iterations 1..i", fkey, te.consumer, te.list)))
+			}
+		}
+	})
+	c.Stats["iteracc_sites"] = n
+	return out
+}
+
+func init() {
+	core.Register(&core.Rule{Name: "ITERACC", Props: []string{"C18"},
+		Doc: "in the iterated bootstrapping loop (frozen table), the scaling factor `prec` depends on a variable accumulated with += from the per-iteration precisions, not on the current precision alone",
+		Run: func(c *core.Ctx) []ob {
+			out := scanIterAcc(c)
+			out = append(out, control(c, "ITERACC", scanIterAcc, "refineAll")...)
+			return out
+		}})
+}
